@@ -1847,6 +1847,11 @@ The what argument tells us what sort of state is expected (allowed values are de
                     print("You asked to unsetup %s %s but version %s is currently setup; unsetting up %s" % \
                         (product.name, versionName, product.version, product.version), file=utils.stdwarn)
 
+            # undo the commands that setup executed: it read the table for the flavor the product was found
+            # under (e.g. a fallback flavor), which SETUP_<PRODUCT> records behind -f
+            if product.flavor:
+                setupFlavor = product.flavor
+
         else:  # on setup (fwd = True)
             # Don't allow --force to resetup products required by the defaultProduct; loops can result
             if productName == hooks.config.Eups.defaultProduct["name"]:
